@@ -2,8 +2,10 @@
    write_metadata_to_file = the canonical serializer, load_metadata_from_file = json.load (the parser model of C07).
    Domain: jdom (see C07). *)
 From CCT Require Import Prelude Hex Num Time Formats Json JsonParse Auth Signing.
+From CCT.Gen Require Pins.
 From CCT.Gen Require Params.
-From CCT.proofs Require Import HexFacts SigFacts AuthFacts SignableFacts SchemaFacts FamilyFacts SigningFacts JsonLexFacts SortFacts JsonFacts PersistFacts.
+From CCT.proofs Require Import HexFacts SigFacts AuthFacts SignableFacts SchemaFacts FamilyFacts SigningFacts JsonLexFacts SortFacts JsonFacts PersistFacts
+     DelegationFacts RootFacts PersistSchemaFacts DecidedFacts.
 Open Scope N_scope.
 
 (* write then load yields the same JSON value (its canonical form) *)
@@ -48,6 +50,30 @@ Theorem C08_entry_validity_preserved : forall ed_verify sha256 gpg kl data k v, 
   (valid_entry ed_verify sha256 gpg kl data k (canon v) <-> valid_entry ed_verify sha256 gpg kl data k v).
 Proof. exact valid_entry_canon. Qed.
 
+(* the documented schema of delegating metadata (C14) holds of the loaded document iff it held of the stored one *)
+Theorem C08_schema_verdict_preserved : forall v, jdom v = true ->
+  (checkformat_delegating_metadata (canon v) = Ok tt <-> checkformat_delegating_metadata v = Ok tt).
+Proof. exact cdm_canon. Qed.
+
+(* the rule a verifier reads for a role from well-formed trusted metadata is the same after persisting *)
+Theorem C08_role_rule_preserved : forall t nm, jdom t = true -> checkformat_delegating_metadata t = Ok tt ->
+  role_rule (canon t) nm = role_rule t nm.
+Proof. intros t nm Hd H. apply role_rule_canon; [exact Hd|apply checker_iff_schema; exact H]. Qed.
+
+(* verify_delegation: same verdict on (loaded payload, loaded trusted metadata) as on the objects before storing *)
+Theorem C08_delegation_verdict_preserved : forall ed_verify sha256 name u t gpg,
+  jdom u = true -> jdom t = true ->
+  (forall sm, subscript u (U"signatures") = Ok (VDict sm) -> py_truth gpg = true -> Forall (fun kv => entry_small (snd kv)) sm) ->
+  (verify_delegation ed_verify sha256 name (canon u) (canon t) gpg = Ok tt <-> verify_delegation ed_verify sha256 name u t gpg = Ok tt).
+Proof. exact delegation_verdict_persists_total. Qed.
+
+(* verify_root: same verdict on the loaded pair as on the pair before storing *)
+Theorem C08_root_verdict_preserved : forall ed_verify sha256 t u,
+  jdom t = true -> jdom u = true ->
+  (forall sm, subscript u (U"signatures") = Ok (VDict sm) -> Forall (fun kv => entry_small (snd kv)) sm) ->
+  (verify_root ed_verify sha256 (canon t) (canon u) = Ok tt <-> verify_root ed_verify sha256 t u = Ok tt).
+Proof. exact root_verdict_persists. Qed.
+
 (* adding a signature to a stored file never alters the signatures already present *)
 Theorem C08_add_signature_preserves_others : forall ed_pub ed_sign,
   (forall seed, length (ed_pub seed) = 32%nat /\ wf_bytes (ed_pub seed)) ->
@@ -79,6 +105,53 @@ Example C08_witness :
   /\ match store_load ex_env with Ok v => store_load v = Ok v | _ => False end.
 Proof. vm_compute. repeat split. discriminate. Qed.
 
+(* BEGIN SOURCE PINS -- written by harness/mkpins.py; the list is what Gen/Pins.v held for the tree the model was validated against *)
+(* the functions of the package this property depends on (call-graph closure of its entry points), each with the fingerprint of its
+   logic (AST without docstrings, annotations, messages, local names): the model and the correspondence runs were validated against
+   exactly these; a change of logic in any of them breaks this obligation and the check then searches for a failing input *)
+Theorem C08_source_pinned : CCT.Gen.Pins.pinned_C08 =
+  [(U"authentication._ascii", U"5f6fc6aad21f14d47c4f");
+   (U"authentication.verify_delegation", U"5dc5b9065823f0f50085");
+   (U"authentication.verify_gpg_signature", U"ccbe2bc800d02410d16b");
+   (U"authentication.verify_root", U"6692242951185dc7604b");
+   (U"authentication.verify_signable", U"1bd56f9b4f5e7bcd88d9");
+   (U"authentication.verify_signature", U"7e0a2d567df7e9f0cdd4");
+   (U"common.MixinKey.from_hex", U"a6e4e81c0b16461490a5");
+   (U"common.MixinKey.to_hex", U"fcdaef7ed3d503ba84df");
+   (U"common.PrivateKey.from_bytes", U"2cb488fc935b61f65bba");
+   (U"common.PrivateKey.to_bytes", U"c9564ea6ce46886b972b");
+   (U"common.PublicKey.from_bytes", U"a439db0d070397bc2b47");
+   (U"common.PublicKey.to_bytes", U"1167c2299d20a5c711f2");
+   (U"common.canonserialize", U"64fc1dee1d7349d7a920");
+   (U"common.checkformat_any_signature", U"82ba0ed515a770fad8a9");
+   (U"common.checkformat_byteslike", U"1c9da61d15ff3a1a9f97");
+   (U"common.checkformat_delegating_metadata", U"b013c9fa5677f3b3f637");
+   (U"common.checkformat_delegation", U"25fc9c6692b07cdca131");
+   (U"common.checkformat_delegations", U"d6a7d445f5f827a1471c");
+   (U"common.checkformat_gpg_fingerprint", U"86e3bb7e4431fb481dc5");
+   (U"common.checkformat_gpg_signature", U"a3c5515ffb8c9f6183ba");
+   (U"common.checkformat_hex_key", U"625afdf8f56eb4c97143");
+   (U"common.checkformat_hex_string", U"eac17f8be3d488d4b8a0");
+   (U"common.checkformat_key", U"d3466826154e389f099e");
+   (U"common.checkformat_list_of_hex_keys", U"4c9121b74cf062a7e2fd");
+   (U"common.checkformat_natural_int", U"14f9984b8b7ef6014787");
+   (U"common.checkformat_signable", U"dbb8b00a3a3727e018da");
+   (U"common.checkformat_signature", U"d544854022da28dcc399");
+   (U"common.checkformat_string", U"a139d0a4113d71e93d9f");
+   (U"common.checkformat_utc_isoformat", U"6fed4a2332e7258f7147");
+   (U"common.is_gpg_signature", U"f236e9c50126a7909e84");
+   (U"common.is_hex_key", U"63c7822022cd24f926e2");
+   (U"common.is_hex_signature", U"433f44075f931ec629d6");
+   (U"common.is_hex_string", U"35e6d253e0c21ac09fca");
+   (U"common.is_signable", U"6932517519189d75eb93");
+   (U"common.is_signature", U"cc04b1fcfd687d0beea7");
+   (U"common.load_metadata_from_file", U"f65eb5087b9ad786f4ff");
+   (U"common.write_metadata_to_file", U"7e7340650f276f577b2b");
+   (U"signing.serialize_and_sign", U"b494a1c320877296ecf6");
+   (U"signing.sign_signable", U"752f8700cfb513a4c6ba")].
+Proof. reflexivity. Qed.
+(* END SOURCE PINS *)
+
 Print Assumptions C08_load_write.
 Print Assumptions C08_loaded_is_same_value.
 Print Assumptions C08_file_is_canonical.
@@ -86,5 +159,10 @@ Print Assumptions C08_cycles_stable.
 Print Assumptions C08_persist_envelope.
 Print Assumptions C08_persist_keeps_verdict.
 Print Assumptions C08_entry_validity_preserved.
+Print Assumptions C08_schema_verdict_preserved.
+Print Assumptions C08_role_rule_preserved.
+Print Assumptions C08_delegation_verdict_preserved.
+Print Assumptions C08_root_verdict_preserved.
 Print Assumptions C08_add_signature_preserves_others.
 Print Assumptions C08_witness.
+Print Assumptions C08_source_pinned.
